@@ -337,6 +337,9 @@ func C20_deep() {
 		c20Run(1, 2, 1)
 		return
 	}
+	// (with no bound on preemptions these two shapes did not finish in 8 CPU
+	// hours; 3 preemptions per schedule is the stated bound)
+	sym.Preemptions(3)
 	if sym.Choice("shape", 2) == 0 {
 		c20Run(1, 3, 1)
 	} else {
